@@ -212,7 +212,7 @@ sys.exit(1 if bad else 0)
 
 def table_facts(chk):
     """finite facts about the data, exhaustive: every row of both single-event tables has one cell per age column, cells are missing (null) only
-    before the event's first tabulated age, and every other cell is a number in (0, 1.5] - so the symbolic runs, which take the cells
+    before the event's first tabulated age, and every other cell is a finite positive number (the property's wording; 2023 field factors exceed 1) - so the symbolic runs, which take the cells
     as given, are not vacuous on a malformed row.  One record per bad cell (matched against the known findings one by one)"""
     script = r'''
 import sys, athlib
@@ -230,8 +230,8 @@ for year, ag in ((2015, athlib.ag2015), (2023, athlib.ag2023)):
                     if seen: bad.append('%s %s %s age %s: missing factor after the first tabulated age' % (year, g, row[0], a))
                     continue
                 seen = True
-                if isinstance(f, bool) or not isinstance(f, (int, float)) or not (0 < f <= 1.5):
-                    bad.append('%s %s %s age %s: factor %r is not a number in (0, 1.5]' % (year, g, row[0], a, f))
+                if isinstance(f, bool) or not isinstance(f, (int, float)) or not (0 < f < float('inf')):
+                    bad.append('%s %s %s age %s: factor %r is not a number in (0, inf)' % (year, g, row[0], a, f))
 print('\n'.join(bad))
 sys.exit(1 if bad else 0)
 '''
